@@ -25,7 +25,7 @@ package ro
 //@   nonnil
 
 //@ func (*observerImpl).NextWithContext
-//@   props C01 C07
+//@   props C01 C07 C17
 //@   binds o ctx value
 //@   scope ctx o onComplete onError onNext status value
 //@   panicforks
@@ -266,13 +266,13 @@ package ro
 //@   ensures [other-modes-rejected] panics ==> mode != 0 && mode != 1 && mode != 2
 
 //@ func (*observableImpl).SubscribeWithContext
-//@   props C01 C02 C03 C07 C14
+//@   props C01 C02 C03 C07 C14 C20
 //@   binds s ctx destination
 //@   scope ctx destination e mode s subscribe subscription
 //@   panicforks
 //@   track call.NewSubscriberWithConcurrencyMode callfn.subscribe subscription.*
 //@   ensures [destination-is-wrapped-in-a-gate-of-the-observable-mode|C01,C02] arg(call.NewSubscriberWithConcurrencyMode, 0) == destination && arg(call.NewSubscriberWithConcurrencyMode, 1) == s.mode
-//@   ensures [subscribe-sees-only-the-gate|C01] arg(callfn.subscribe, 0) == ctx && arg(callfn.subscribe, 1) == res(call.NewSubscriberWithConcurrencyMode)
+//@   ensures [subscribe-sees-only-the-gate|C01,C20] arg(callfn.subscribe, 0) == ctx && arg(callfn.subscribe, 1) == res(call.NewSubscriberWithConcurrencyMode)
 //@   ensures [teardown-registered|C03,C14] !panicked(subscribe) && !caught ==> trace(call.NewSubscriberWithConcurrencyMode(_, _), callfn.subscribe(_, _), subscription.Add(res(callfn.subscribe)))
 //@   ensures [panic-becomes-error-then-release|C01,C02,C07,C03] panicked(subscribe) ==> trace(call.NewSubscriberWithConcurrencyMode(_, _), callfn.subscribe(_, _), subscription.ErrorWithContext(ctx, newObservableError(recoverValueToError(panicval(subscribe)))), subscription.Unsubscribe())
 //@   ensures [returns-the-gate|C01] result == res(call.NewSubscriberWithConcurrencyMode)
